@@ -281,6 +281,23 @@ def supportDataTrailer (v0 : Bytes) : Bool :=
     decide (patch ≥ 2)
   | _ => false
 
+/-- the integer literals of `supportDataTrailer` above, in source order:
+`len(v) < 6`, `major > 0`, `minor != 4`, `minor > 4`, `patch >= 2` (compared with the regenerated ones) -/
+def gateConsts : List Nat := [6, 0, 4, 4, 2]
+
+/-! ## what `external.Execute` sends and `UnmarshalRequest` makes of it (plugin.go:144-158, marshal.go)
+
+`gate` = `supportDataTrailer(readPluginThriftGoVersion(path)) && enableCompressThriftInclude`:
+includes are compressed **iff** the trailer is appended — one condition guards both. -/
+
+/-- the AST on the wire and whether the trailer follows it -/
+def sendAst {α : Type} (dflt : α) (gate : Bool) (t : Tree α) : Tree α × Bool :=
+  if gate then ((compress dflt t).1, true) else (t, false)
+
+/-- the plugin side: decompress iff the trailer is there -/
+def receiveAst {α : Type} (fuel : Nat) (p : Tree α × Bool) : DRes (Tree α) :=
+  if p.2 then decompress fuel none p.1 else .ok p.1
+
 /-! ## option strings (plugin.go:43-92) -/
 
 structure Opt where
